@@ -9,6 +9,9 @@ package main
 
 import (
 	"fmt"
+	"regexp"
+	"path/filepath"
+	"os"
 	"reflect"
 	"sync/atomic"
 	"time"
@@ -23,6 +26,7 @@ import (
 	"github.com/alephium/wormhole-fork/node/verifh/mc"
 	"github.com/alephium/wormhole-fork/node/verifh/proch"
 	"github.com/alephium/wormhole-fork/node/verifh/vtime"
+	"github.com/alephium/wormhole-fork/node/verifh/wiring"
 	ethcommon "github.com/ethereum/go-ethereum/common"
 	"github.com/ethereum/go-ethereum/crypto"
 	"github.com/libp2p/go-libp2p/core/peer"
@@ -299,6 +303,25 @@ func main() {
 	capStates, capTrans := heartbeatCap()
 	// ---- observation path: mutants of a valid observation must leave the processor untouched
 	obsMut := observationMutants()
+
+	// ---- production wiring: the verifiers above are called with disableVerify=false. In the node that argument is
+	// a parameter of p2p.Run, bound in cmd/guardiand/node.go: it must be the --disableHeartbeatVerify flag and
+	// nothing else (read with go/ast at check time)
+	{
+		nodeGo := filepath.Join(r.Repo, "node/cmd/guardiand/node.go")
+		got, err := wiring.ArgFor(nodeGo, "p2p.Run", filepath.Join(r.Repo, "node/pkg/p2p/p2p.go"), "Run", "disableHeartbeatVerify")
+		if err != nil || len(got) != 1 {
+			ev.Broken("node.go: call of p2p.Run: %v", err)
+		}
+		r.Set("p2p_run_disableHeartbeatVerify_argument", got[0])
+		if got[0] != "*disableHeartbeatVerify" {
+			r.Violation("production wiring: heartbeat verification is switched by something else than the --disableHeartbeatVerify flag", "node.go passes "+got[0]+" for p2p.Run's disableHeartbeatVerify parameter: with that value true, heartbeats signed by any key are stored", got[0])
+		}
+		src, _ := os.ReadFile(nodeGo)
+		if !regexp.MustCompile(`disableHeartbeatVerify = NodeCmd\.Flags\(\)\.Bool\("disableHeartbeatVerify", false,`).Match(src) {
+			r.Violation("production wiring: heartbeat verification is not on by default", "the --disableHeartbeatVerify flag is not declared with default false", nil)
+		}
+	}
 
 	r.Set("states", capStates+int(evals)+obsMut)
 	r.Set("transitions", capTrans+int(evals)+obsMut)
